@@ -1086,6 +1086,13 @@ func (c *Conn) handleBdat(arg string) {
 
 	chunk := &io.LimitedReader{R: c.text.R, N: int64(size)}
 	n, err := io.Copy(bdatPipe, chunk)
+	if err == io.ErrClosedPipe {
+		// The backend returned without an error before it had read the whole
+		// message: as far as it is concerned the message is accepted. The rest
+		// is skipped and the verdict remains the backend's, as with DATA.
+		_, err = io.Copy(ioutil.Discard, chunk)
+		n = int64(size) - chunk.N
+	}
 	if err == nil && n < int64(size) {
 		// The connection was lost inside the chunk, so the message is
 		// incomplete: abort the transfer (the backend's reader fails with
